@@ -4,7 +4,7 @@ import random
 
 import numpy as np
 
-from .. import gens
+from .. import gens, hist_stale
 from ..common import Result
 from ..monitors import bits_equal, fdmap, same_dtype, describe
 from ..procs import run_forked, run_case_forked
@@ -108,6 +108,11 @@ def cases(tier, seed):
     for k in range(48 if tier == 'quick' else 400):
         yield {'t': 'durability', 'numtype': DTYPES[k % len(DTYPES)], 'bo': gens.BO[k % 2],
                'fate': ['overwrite', 'truncate', 'delete', 'recreate'][k % 4], 'k': k}
+    # reads and assignments through a handle whose array was changed by other means (path / second handle / re-creation
+    # with the same byte size but another type or shape)
+    for c in hist_stale.array_cases(random.Random(f'C12:{seed}:stale'), 300 if tier == 'quick' else 4000, seed, read_bias=True):
+        c['t'] = 'stale'
+        yield c
 
 
 def classify_exc(e):
@@ -135,9 +140,19 @@ def owned(x):
 def run_case(case, env):
     if case['t'] == 'durability':
         return run_durability(case, env, Result())
+    if case['t'] == 'stale':
+        return run_case_forked(env, case, run_stale, what=f'stale-handle sequence {case}')
     # every access sequence runs in its own forked child: a result that still points into an unmapped
     # file kills the child, which is then the observation (not the death of the worker)
     return run_case_forked(env, case, run_sequence, what=f'access sequence {case}')
+
+
+def run_stale(case, env):
+    res = Result()
+    hist_stale.run_array(env, res, case, census=True)
+    res.sig = hist_stale.sig_of(case)
+    res.dim('sequence', 'stale-handle')
+    return res
 
 
 def run_sequence(case, env):
@@ -156,7 +171,21 @@ def run_sequence(case, env):
         kept_exc = []
         descs = []
         goodreads = 0
+        away_step = rng.randrange(case['len']) if case['k'] % 4 == 1 else -1
         for step in range(case['len']):
+            if step == away_step:
+                # an access that fails while *opening* the data file (the directory is temporarily somewhere else);
+                # everything after it must behave as if it had not happened
+                import os
+                res.count('mon.failed_open_events')
+                os.rename(path, d / 'away')
+                for attempt in (lambda: a[...], lambda: a.__setitem__(Ellipsis, 1)):
+                    try:
+                        attempt()
+                    except Exception as e:
+                        kept_exc.append(e)
+                os.rename(d / 'away', path)
+                descs.append(('X', 'failed-open'))
             desc, idx = make_index(rng, shape)
             is_assign = rng.random() < 0.35
             descs.append(('A' if is_assign else 'R', desc))
